@@ -2720,10 +2720,7 @@ def _write_filtered_contacts(warn_overflow: bool):
     contact_dist_out[id_] = cand_dist[i]
     contact_pos_out[id_] = cand_pos[i]
     contact_frame_out[id_] = make_frame(cand_nrm[i])
-    if geomid >= 0 and geom_type[geomid] == int(GeomType.PLANE):
-      contact_includemargin_out[id_] = margin - gap
-    else:
-      contact_includemargin_out[id_] = margin
+    contact_includemargin_out[id_] = margin
     contact_friction_out[id_] = friction
     contact_solref_out[id_] = solref
     contact_solreffriction_out[id_] = solref
